@@ -362,6 +362,10 @@ def check(ctx):
     else:
         o.witness('default')
         o.sample({'param': 'is_cyclical', 'documented': doc, 'signature': sig})
+    obs.append(ctx.shared('c01', 'C01.1', 'C18.7', 'every transition of a timetable is an event waiting in the queue while other devices pause and resume theirs: the queue must '
+                          'keep one discipline (removing from a heap as if it were a sorted list lets a later transition overtake an earlier one)'))
+    obs.append(ctx.shared('c20', 'C20.4', 'C18.8', 'a scheduler starts its timetable in initialize(): every asset is initialised exactly once, also one created while the others are '
+                          'being initialised (a second initialisation starts a second, shifted copy of the timetable)'))
     return obs
 
 
